@@ -368,7 +368,7 @@ func init() {
 			br.mu.Unlock()
 			var buf bytes.Buffer
 			old, oldLvl := log.Logger, zerolog.GlobalLevel()
-			log.Logger = zerolog.New(&lockedWriter{w: &buf, br: br})
+			log.Logger = zerolog.New(&lockedWriter{w: &buf, br: br, msgID: a[2]})
 			zerolog.SetGlobalLevel(zerolog.InfoLevel)
 			_ = e.Execute(ps)
 			log.Logger = old
